@@ -168,7 +168,8 @@ def _shard(task):
 
 
 def _print(*a):
-    print(*a)
+    # (details may quote arbitrary generated text, lone surrogates included)
+    print(*[x.encode('utf-8', 'backslashreplace').decode('utf-8') if isinstance(x, str) else x for x in a])
     sys.stdout.flush()
 
 
